@@ -42,6 +42,7 @@ RULES = {
     "N4": rules_extra.rule_N4,
     "N5": rules_arith.rule_N5,
     "N6": rules_arith.rule_N6,
+    "P4": rules_state.rule_P4,
 }
 
 SELFTESTS = {"T1": rules_types.selftest_T1}
@@ -146,7 +147,7 @@ PROPS = {
     "C09": {
         "id": "C09",
         "title": "Concurrent use from several threads is race-free and result-preserving",
-        "rules": ["P1", "P2", "P3"],
+        "rules": ["P1", "P2", "P3", "P4"],
         "clause": "all structural preconditions of race freedom: no mutable static-storage state that is not thread_local; "
                   "every const operation of every transform-plan class is free of writes to storage reachable from the object; "
                   "distinct objects are distinct state - no class that is copied member-wise modifies what a shared_ptr member "
